@@ -14,6 +14,47 @@ type gctx struct {
 	held        []int64
 	dyn         []int64 // blocks of the callers (visible to InBlock, not lexically) - function bodies only
 	dynG        []int64 // tags of the callers (reachable through the inherited TagBody flag) - function bodies only
+	exited      []int64 // blocks around the defun form of this function (on the closure chain, exited) - function bodies only
+}
+
+// dscope is one scope around a defun form: (let ((c 1)) ...) or (block name ...). A defun written inside such
+// a form gets that scope as its closure (defun.go), and every call scope of the function then has the two
+// parents [closure, caller] (lambda.go Lambda.Call): the shape scope.go InBlock has to walk.
+type dscope struct {
+	Block bool
+	Name  int64
+}
+
+// defCtx picks the context of a new defun: none (top level, no closure) or 1-3 scopes.
+func (g *gen) defCtx() []dscope {
+	if g.rng.Chance(40) {
+		return nil
+	}
+	n := 1 + g.rng.Intn(3)
+	if g.rng.Chance(50) {
+		n = 1
+	}
+	out := make([]dscope, n)
+	for i := range out {
+		if g.rng.Chance(35) {
+			g.nextBlk++
+			out[i] = dscope{Block: true, Name: g.nextBlk}
+			if g.rng.Chance(30) {
+				out[i].Name = 0
+			}
+		}
+	}
+	return out
+}
+
+func (g *gen) setCtx(idx int, dc []dscope) {
+	if len(dc) == 0 {
+		return
+	}
+	if g.dctx == nil {
+		g.dctx = map[int][]dscope{}
+	}
+	g.dctx[idx] = dc
 }
 
 func has(xs []int64, x int64) bool {
@@ -48,6 +89,7 @@ type gen struct {
 	nextBlk int64
 	nextPh  int64 // placeholders for the name of a function whose index is not known yet (negative)
 	defs    [][]*Form
+	dctx    map[int][]dscope // where the defun of function i is written (innermost scope first); absent = top level
 	safe    bool
 	nilWrap bool // the wrapping block is (block nil ...)
 	hist    func(string)
@@ -108,6 +150,13 @@ func (g *gen) leaf(c gctx, kind string) *Form {
 		cands := c.vb
 		if !g.safe && len(c.dyn) > 0 && g.rng.Chance(50) {
 			cands = c.dyn
+		}
+		if !g.safe && len(c.exited) > 0 && g.rng.Chance(35) {
+			// a block around the defun form: it has exited, but is on the closure chain
+			g.nextK++
+			g.exitKind = "return-exited"
+			t := c.exited[g.rng.Intn(len(c.exited))]
+			return &Form{K: "ReturnFrom", N: t, C: &Form{K: "Const", Lit: "int", Z: 1000 + g.nextK}}
 		}
 		var t int64
 		switch {
@@ -529,13 +578,20 @@ func (g *gen) spine(d int, c gctx) *Form {
 		g.nextPh--
 		placeholder := g.nextPh
 		fc := gctx{vb: []int64{placeholder}, held: c.held}
+		dc := g.defCtx()
 		if !g.safe {
 			fc.dyn = c.vb
 			fc.dynG = c.vg
+			for _, e := range dc {
+				if e.Block {
+					fc.exited = append(fc.exited, e.Name)
+				}
+			}
 		}
 		body := g.body(n, g.pickPos(n), d-1, same(fc))
 		idx = len(g.defs)
 		g.defs = append(g.defs, body)
+		g.setCtx(idx, dc)
 		for _, b := range g.defs {
 			for _, f := range b {
 				patch(f, placeholder, int64(100+idx))
